@@ -68,6 +68,17 @@ def main():
         if name.endswith("_delegates"):
             base = ("C14",) if name.startswith("Fleet") else ("C11",)
             return base + (("C07",) if name.endswith("_cancel_delegates") else ())      # a cancel checked by the edge's own store
+        if name.endswith("_wiring") or "_keeps_" in name:
+            # constructor wiring: the configured parameter reaches the store that enforces / uses it
+            if name.endswith("_capacity_wiring"):
+                return ("C01",)
+            if "mode" in name and name.startswith("Buffer"):
+                return ("C06",)
+            if name.startswith("Fleet"):
+                return ("C14",)
+            if "accumulation" in name:
+                return ("C12", "C13")
+            return ("C12",)
         if name == "ContBelt_is_stalled":
             return ("C13",)
         if name == "Machine_slot_before_index_draw":
@@ -97,6 +108,7 @@ def main():
                           ("theories/Edges/TieBelt.vo", ("C12", "C13")),
                           ("theories/Nodes/TieNodes.vo", ("C03", "C07", "C08", "C10", "C11", "C14", "C15", "C16")),
                           ("theories/Factory/TieStats.vo", ("C14", "C17", "C18")),
+                          ("theories/Edges/TieWiring.vo", ("C01", "C06", "C12", "C13", "C14")),
                           ("theories/Factory/TieCommit.vo", ("C09", "C10", "C15"))):
         if pid in props:
             okt, logt = lib.build_coq_target(target)
